@@ -83,6 +83,14 @@ Definition mon_id (i : oid) (o : idobs) : bool :=
   let clean := id_wf i in
   (negb clean || (res_eqb oid_eqb (ob_parsed o) (Ok i) && res_eqb ids_eqb (ob_smback o) (Ok [i])
                   && negb (ob_store_err o)))
+  (* the key of an RBAC-kind identifier carries no ':' (not a legal ConfigMap key character) *)
+  && (negb (is_rbac (o_grp i) (o_knd i)) || contains ":" (o_ns i) || negb (contains ":" (ob_key o)))
+  (* FromStringMap of the one-key map: an error, or exactly one identifier (the key is never
+     dropped silently), and then what ParseObjMetadata reads of that key *)
+  && match ob_smback o with
+     | Ok l => match ob_parsed o with Ok j => ids_eqb l [j] | Err => false end
+     | Err => negb (is_ok (ob_parsed o))
+     end
   && (if ob_store_err o
       then match ob_written o with [] => true | _ => false end
       else list_eqb String.eqb (map fst (ob_written o)) [ob_key o]
@@ -160,8 +168,10 @@ Definition check_inv (c : invcase) : nat :=
   | CStringMap ids keys back =>
       code (smap_eqb (to_string_map ids) (map (fun k => (k, "")) keys)
             && res_set_eqb (from_string_map (to_string_map ids)) back)
-           (negb (forallb id_wf ids) ||
-            match back with Ok l => set_eq_id l ids && nodup_id l | Err => false end)
+           ((negb (forallb id_wf ids) ||
+             match back with Ok l => set_eq_id l ids && nodup_id l | Err => false end)
+            (* any set: an error, or one identifier per key of the map *)
+            && match back with Ok l => Nat.eqb (List.length l) (List.length keys) | Err => true end)
   | CIdParse s parsed restr reparsed =>
       code (res_eqb oid_eqb (parse_id s) parsed
             && res_eqb String.eqb (match parsed with Ok i => Ok (string_of_id i) | Err => Err end) restr
